@@ -101,6 +101,29 @@ pub fn via_builder(ctx: &mut Ctx, f: &Facts, r: &RefOnt, mode: Mode, what: &str)
     }
 }
 
+/// Run the facts through the Builder with rejected calls (naming absent terms) interleaved, and compare with
+/// the model of the valid facts alone: a call that returns an error is not a fact.
+pub fn via_builder_rejected(ctx: &mut Ctx, f: &Facts, r: &RefOnt, mode: Mode, what: &str) -> Option<crate::obs::Obs> {
+    let absent: Vec<u32> = [3u32, 0, 9_999_999, 10_000_000, u32::MAX, 2, 119].iter().copied().filter(|x| !f.terms.iter().any(|t| t.id == *x)).collect();
+    ctx.transitions(3 * f.n_steps());
+    match drive::build_with_rejected(f, mode, &absent) {
+        Err(e) if e.starts_with("accepted:") => {
+            ctx.exec();
+            ctx.violation("Builder", "[builder, rejected calls interleaved] a call naming an absent term returns Ok", json!({"case": f.to_json(), "observed": e, "order": what}));
+            None
+        }
+        Err(e) => {
+            ctx.exec();
+            ctx.violation("Builder", "[builder, rejected calls interleaved] construction fails on valid facts", json!({"case": f.to_json(), "observed": e, "order": what, "absent_ids_used": absent}));
+            None
+        }
+        Ok(ont) => {
+            let case = || json!({"facts": f.to_json(), "order": what, "rejected_calls": "before every add_parent: the same call with parent / child replaced by an absent id; after every annotate_*: the same call and one for a fresh record id with an absent term id", "absent_ids_used_in_rotation": absent});
+            check_against_model(ctx, &ont, r, mode, "builder, rejected calls interleaved", &case)
+        }
+    }
+}
+
 /// Encode with the independent encoder, decode with the real decoder, compare with the model.
 pub fn via_binary(ctx: &mut Ctx, f: &Facts, o: &EncOpts, what: &str) -> Option<crate::obs::Obs> {
     let version = o.version;
@@ -121,6 +144,73 @@ pub fn via_binary(ctx: &mut Ctx, f: &Facts, o: &EncOpts, what: &str) -> Option<c
             ctx.violation("Ontology::from_bytes", &format!("[binary v{version}] panics on a file laid out as documented"), json!({"case": case(), "observed": p}));
             None
         }
+    }
+}
+
+/// Binary file in which every record with terms occurs twice (all but the last term, then all terms).
+/// The layout does not say how a repeated id is resolved, so the oracle is policy-neutral: terms and links
+/// between terms as in the model; every record id present once, listing either the partial or the complete
+/// term set; and the annotation links and information content must be exactly the closure of the records the
+/// decoded ontology itself reports (C02's iff evaluated on the decoded ontology).
+pub fn via_binary_repeated(ctx: &mut Ctx, f: &Facts, version: u8, what: &str) {
+    let pf = encode::project(f, version);
+    let r = RefOnt::derive(&pf);
+    ctx.transitions(2 * pf.n_steps());
+    let o = EncOpts { repeat_records: true, ..EncOpts::v(version) };
+    let bytes = encode::encode(&pf, &o);
+    let case = || json!({"facts": pf.to_json(), "format_version": version, "order": what, "layout": "every gene/disease record with terms is written twice: first without its last term, then completely"});
+    ctx.exec();
+    ctx.validated();
+    let path = format!("binary v{version}, repeated records");
+    match drive::from_bytes(&bytes) {
+        Ok(Ok(ont)) => match crate::obs::Obs::of(&ont) {
+            Err(inc) => ctx.violation(&inc.site, &format!("[{path}] read API inconsistent or panicking"), json!({"case": case(), "observed": inc.what})),
+            Ok(obs) => {
+                let own = obs.to_facts(pf.version);
+                // records: same ids as supplied; each lists the partial or the complete term set
+                for k in crate::model::KINDS {
+                    let want = encode::records_of(&pf, k);
+                    let got = &obs.recs[k.idx()];
+                    let mut want_ids: Vec<u32> = want.iter().map(|w| w.0).collect();
+                    want_ids.sort_unstable();
+                    let got_ids: Vec<u32> = got.iter().map(|g| g.id).collect();
+                    if want_ids != got_ids {
+                        ctx.violation("Ontology::from_bytes", &format!("[{path}] set of {} records differs from the file", k.name()), json!({"case": case(), "expected_ids": want_ids, "observed_ids": got_ids}));
+                        return;
+                    }
+                    for g in got {
+                        let w = want.iter().find(|w| w.0 == g.id).unwrap();
+                        let mut full = w.2.clone();
+                        let mut part: Vec<u32> = full[..full.len().saturating_sub(1)].to_vec();
+                        full.sort_unstable();
+                        part.sort_unstable();
+                        if g.terms != full && g.terms != part {
+                            ctx.violation("Ontology::from_bytes", &format!("[{path}] a record lists terms that neither of its two occurrences lists"), json!({"case": case(), "kind": k.name(), "record": g.id, "observed_terms": g.terms, "complete": full, "partial": part}));
+                            return;
+                        }
+                    }
+                }
+                let own_model = RefOnt::derive(&own);
+                let exp = crate::obs::Obs::expected(&own_model, Mode::Defaults);
+                if let Some((site, sig, det)) = obs.diff(&exp, false) {
+                    ctx.violation(&site, &format!("[{path}] links are not the closure of the records the ontology reports: {sig}"), json!({"case": case(), "difference": det}));
+                    return;
+                }
+                // the term graph itself does not depend on the records
+                let mut bare = pf.clone();
+                bare.anns.clear();
+                let mut own_bare = own.clone();
+                own_bare.anns.clear();
+                let (a, b) = (RefOnt::derive(&bare), RefOnt::derive(&own_bare));
+                if crate::obs::Obs::expected(&a, Mode::Defaults).diff(&crate::obs::Obs::expected(&b, Mode::Defaults), true).is_some() {
+                    ctx.violation("Ontology::from_bytes", &format!("[{path}] terms or links between terms differ from the file"), json!({"case": case()}));
+                }
+                let _ = r;
+                ctx.outcome(obs.fingerprint());
+            }
+        },
+        Ok(Err(e)) => ctx.violation("Ontology::from_bytes", &format!("[{path}] rejects a file laid out as documented"), json!({"case": case(), "observed": e})),
+        Err(p) => ctx.violation("Ontology::from_bytes", &format!("[{path}] panics on a file laid out as documented"), json!({"case": case(), "observed": p})),
     }
 }
 
